@@ -175,10 +175,12 @@ impl Summary {
         }
     }
     pub fn violation(&mut self, property: &str, what: String, instance: Value, detail: Value) {
-        if self.violations.len() < 200 {
+        // keep at most 25 replayable violations per property (the counter keeps the total)
+        let key = format!("violations_{}", property);
+        if self.counters.get(&key).copied().unwrap_or(0) < 25 {
             self.violations.push(serde_json::json!({"property": property, "what": what, "instance": instance, "detail": detail}));
         }
-        self.count(&format!("violations_{}", property));
+        self.count(&key);
     }
     pub fn sample(&mut self, v: Value) {
         if self.samples.len() < 3 {
